@@ -39,7 +39,16 @@ type verdict struct {
 var cacheDir = "/verif/.cache"
 var useCache = true
 
+// at most this many solver processes at a time (the sandbox has 16 cores)
+var solverSem = make(chan struct{}, 16)
+
 func runSolver(ctx context.Context, s solverSpec, file string, timeoutS int) verdict {
+	select {
+	case solverSem <- struct{}{}:
+		defer func() { <-solverSem }()
+	case <-ctx.Done():
+		return verdict{Answer: "unknown", Solver: s.name}
+	}
 	t0 := time.Now()
 	args := s.args(file, timeoutS)
 	cmd := exec.CommandContext(ctx, args[0], args[1:]...)
@@ -76,32 +85,36 @@ func decide(query string, timeoutS int, usesLambda bool) verdict {
 	os.WriteFile(qfile, []byte(query), 0o644)
 	defer os.Remove(qfile)
 	total := 0.0
-	stage1 := 3
+	race := func(set []solverSpec, tmo int) verdict {
+		ctx, cancel := context.WithCancel(context.Background())
+		defer cancel()
+		ch := make(chan verdict, len(set))
+		for _, s := range set {
+			go func(s solverSpec) { ch <- runSolver(ctx, s, qfile, tmo) }(s)
+		}
+		var last verdict
+		for range set {
+			r := <-ch
+			if r.Answer != "unknown" {
+				return r
+			}
+			last = r
+		}
+		return last
+	}
+	// stage 1: z3-new and cvc5 raced with a short timeout (they complement each other);
+	// stage 2: all three with the full timeout
+	stage1 := 4
 	if timeoutS < stage1 {
 		stage1 = timeoutS
 	}
-	v := runSolver(context.Background(), solvers[0], qfile, stage1)
-	total += v.Secs
-	if v.Answer == "unknown" {
-		ctx, cancel := context.WithCancel(context.Background())
-		ch := make(chan verdict, len(solvers))
-		n := 0
-		for _, s := range solvers {
-			n++
-			go func(s solverSpec) { ch <- runSolver(ctx, s, qfile, timeoutS) }(s)
-		}
-		var last verdict
-		for i := 0; i < n; i++ {
-			r := <-ch
-			if r.Answer != "unknown" {
-				v = r
-				break
-			}
-			last = r
-			v = last
-		}
-		cancel()
-		total += v.Secs
+	t1 := time.Now()
+	v := race([]solverSpec{solvers[0], solvers[2]}, stage1)
+	total += time.Since(t1).Seconds()
+	if v.Answer == "unknown" && timeoutS > stage1 {
+		t2 := time.Now()
+		v = race(solvers, timeoutS)
+		total += time.Since(t2).Seconds()
 	}
 	v.Secs = total
 	if v.Answer != "unknown" && useCache {
@@ -187,7 +200,21 @@ func solveOne(o *Obligation, timeoutS int) {
 		}
 		return
 	}
-	v := decide(q, timeoutS, false)
+	var v verdict
+	if strings.Contains(q, "(mulx") && !o.absMul {
+		// first with products abstracted (a proof under the abstraction is a proof)
+		o.absMul = true
+		qa := o.Query(true)
+		o.absMul = false
+		va := decide(qa, min(timeoutS, 5), false)
+		if va.Answer == "unsat" {
+			va.Solver += "(products abstracted)"
+			v = va
+		}
+	}
+	if v.Answer == "" {
+		v = decide(q, timeoutS, false)
+	}
 	o.Solver, o.Secs, o.Output = v.Solver, v.Secs, trunc(v.Output, 4000)
 	switch {
 	case v.Answer == "unsat":
@@ -209,4 +236,3 @@ func solveOne(o *Obligation, timeoutS int) {
 		}
 	}
 }
-
